@@ -582,3 +582,365 @@ pub fn print_definition_hoisted(top: &Ty, kind: usize) -> Option<String> {
     };
     Some(format!("{decl};\nblock \"IF_DATA\" {member};"))
 }
+
+// ---------------------------------------------------------------------------------------------
+// an independent parser for plain A2ML text (used to read the text constant the macro generates)
+
+#[derive(Debug, Clone, PartialEq)]
+enum AT {
+    Kw(String),
+    Tag(String),
+    Num(i64),
+    P(char),
+}
+
+fn a2ml_lex(text: &str) -> Result<Vec<AT>, String> {
+    let c: Vec<char> = text.chars().collect();
+    let mut i = 0;
+    let mut out = Vec::new();
+    while i < c.len() {
+        let ch = c[i];
+        if ch.is_whitespace() {
+            i += 1;
+        } else if ch == '/' && i + 1 < c.len() && c[i + 1] == '*' {
+            i += 2;
+            while i + 1 < c.len() && !(c[i] == '*' && c[i + 1] == '/') {
+                i += 1;
+            }
+            i += 2;
+        } else if ch == '/' && i + 1 < c.len() && c[i + 1] == '/' {
+            while i < c.len() && c[i] != '\n' {
+                i += 1;
+            }
+        } else if ch == '"' {
+            let s = i + 1;
+            i += 1;
+            while i < c.len() && c[i] != '"' {
+                i += 1;
+            }
+            if i >= c.len() {
+                return Err("unclosed tag".into());
+            }
+            out.push(AT::Tag(c[s..i].iter().collect()));
+            i += 1;
+        } else if ch.is_ascii_digit() || (ch == '-' && i + 1 < c.len() && c[i + 1].is_ascii_digit()) {
+            let s = i;
+            i += 1;
+            while i < c.len() && (c[i].is_ascii_alphanumeric()) {
+                i += 1;
+            }
+            let t: String = c[s..i].iter().collect();
+            let v = if let Some(h) = t.strip_prefix("0x") { i64::from_str_radix(h, 16) } else { t.parse::<i64>() };
+            out.push(AT::Num(v.map_err(|e| format!("bad number {t}: {e}"))?));
+        } else if ch.is_ascii_alphabetic() || ch == '_' {
+            let s = i;
+            while i < c.len() && (c[i].is_ascii_alphanumeric() || c[i] == '_') {
+                i += 1;
+            }
+            out.push(AT::Kw(c[s..i].iter().collect()));
+        } else if "{}()[];,=*".contains(ch) {
+            out.push(AT::P(ch));
+            i += 1;
+        } else {
+            return Err(format!("unexpected character {ch:?}"));
+        }
+    }
+    Ok(out)
+}
+
+struct AP {
+    t: Vec<AT>,
+    i: usize,
+    named: std::collections::HashMap<(usize, String), Ty>,
+}
+
+impl AP {
+    fn peek(&self) -> Option<&AT> {
+        self.t.get(self.i)
+    }
+    fn next(&mut self) -> Result<AT, String> {
+        let t = self.t.get(self.i).cloned().ok_or("unexpected end of A2ML")?;
+        self.i += 1;
+        Ok(t)
+    }
+    fn expect(&mut self, c: char) -> Result<(), String> {
+        match self.next()? {
+            AT::P(x) if x == c => Ok(()),
+            other => Err(format!("expected '{c}', got {other:?} at token {}", self.i)),
+        }
+    }
+    fn is_p(&self, c: char) -> bool {
+        self.peek() == Some(&AT::P(c))
+    }
+    fn opt_name(&mut self) -> Option<String> {
+        if let Some(AT::Kw(k)) = self.peek() {
+            let k = k.clone();
+            self.i += 1;
+            Some(k)
+        } else {
+            None
+        }
+    }
+
+    fn type_name(&mut self) -> Result<Ty, String> {
+        let AT::Kw(k) = self.next()? else { return Err(format!("type expected at token {}", self.i)) };
+        let sc = match k.as_str() {
+            "char" => Some(Sc::Char),
+            "int" => Some(Sc::Int),
+            "long" => Some(Sc::Long),
+            "int64" => Some(Sc::Int64),
+            "uchar" => Some(Sc::UChar),
+            "uint" => Some(Sc::UInt),
+            "ulong" => Some(Sc::ULong),
+            "uint64" => Some(Sc::UInt64),
+            "float" => Some(Sc::Float),
+            "double" => Some(Sc::Double),
+            _ => None,
+        };
+        if let Some(sc) = sc {
+            return Ok(Ty::Scalar(sc));
+        }
+        let kind = match k.as_str() {
+            "enum" => 1,
+            "struct" => 2,
+            "taggedstruct" => 3,
+            "taggedunion" => 4,
+            other => return Err(format!("unknown type keyword {other}")),
+        };
+        let name = self.opt_name();
+        if !self.is_p('{') {
+            let n = name.ok_or("type reference without a name")?;
+            return self.named.get(&(kind, n.clone())).cloned().ok_or(format!("type {n} referenced but not defined"));
+        }
+        self.expect('{')?;
+        let ty = match kind {
+            1 => {
+                let mut items = Vec::new();
+                loop {
+                    let AT::Tag(tag) = self.next()? else { return Err("enum item expected".into()) };
+                    let mut val = None;
+                    if self.is_p('=') {
+                        self.expect('=')?;
+                        let AT::Num(n) = self.next()? else { return Err("enum value expected".into()) };
+                        val = Some(n as i32);
+                    }
+                    items.push((tag, val));
+                    if self.is_p(',') {
+                        self.expect(',')?;
+                        if self.is_p('}') {
+                            break;
+                        }
+                    } else {
+                        break;
+                    }
+                }
+                Ty::Enum(items)
+            }
+            2 => {
+                let mut ms = Vec::new();
+                while !self.is_p('}') {
+                    ms.push(self.member()?);
+                    self.expect(';')?;
+                }
+                Ty::Struct(ms)
+            }
+            _ => {
+                let mut items = Vec::new();
+                while !self.is_p('}') {
+                    items.push(self.tagged_member(kind == 3)?);
+                    self.expect(';')?;
+                }
+                if kind == 3 {
+                    Ty::TaggedStruct(items)
+                } else {
+                    Ty::TaggedUnion(items)
+                }
+            }
+        };
+        self.expect('}')?;
+        if let Some(n) = name {
+            self.named.insert((kind, n), ty.clone());
+        }
+        Ok(ty)
+    }
+
+    fn member(&mut self) -> Result<Ty, String> {
+        let mut ty = self.type_name()?;
+        let mut dims = Vec::new();
+        while self.is_p('[') {
+            self.expect('[')?;
+            let AT::Num(n) = self.next()? else { return Err("array dimension expected".into()) };
+            self.expect(']')?;
+            dims.push(n as usize);
+        }
+        for d in dims {
+            ty = if ty == Ty::Scalar(Sc::Char) { Ty::Str(d) } else { Ty::Array(Box::new(ty), d) };
+        }
+        Ok(ty)
+    }
+
+    /// tag [member] | tag ( member )*
+    fn tagged_def(&mut self) -> Result<Option<Ty>, String> {
+        if self.is_p(';') || self.is_p(')') {
+            return Ok(None);
+        }
+        if self.is_p('(') {
+            self.expect('(')?;
+            let m = self.member()?;
+            self.expect(')')?;
+            self.expect('*')?;
+            return Ok(Some(Ty::Seq(Box::new(m))));
+        }
+        Ok(Some(self.member()?))
+    }
+
+    fn tagged_member(&mut self, allow_repeat: bool) -> Result<Tagged, String> {
+        let mut repeat = false;
+        if allow_repeat && self.is_p('(') {
+            self.expect('(')?;
+            repeat = true;
+        }
+        let mut block = false;
+        if self.peek() == Some(&AT::Kw("block".into())) {
+            self.i += 1;
+            block = true;
+        }
+        let AT::Tag(tag) = self.next()? else { return Err(format!("tag expected at token {}", self.i)) };
+        let item = self.tagged_def()?;
+        if repeat {
+            self.expect(')')?;
+            self.expect('*')?;
+        }
+        Ok(Tagged { tag, item, block, repeat })
+    }
+}
+
+/// parse a complete plain-A2ML text and return the type of the content of `block "IF_DATA"`
+pub fn parse_definition(text: &str) -> Result<Ty, String> {
+    let mut p = AP { t: a2ml_lex(text)?, i: 0, named: std::collections::HashMap::new() };
+    let mut ifdata = None;
+    while p.peek().is_some() {
+        if p.peek() == Some(&AT::Kw("block".into())) {
+            p.i += 1;
+            let AT::Tag(tag) = p.next()? else { return Err("tag expected after block".into()) };
+            let def = p.tagged_def()?;
+            if tag == "IF_DATA" {
+                ifdata = def;
+            }
+        } else {
+            p.member()?;
+        }
+        p.expect(';')?;
+    }
+    ifdata.ok_or_else(|| "no IF_DATA block".to_string())
+}
+
+/// single-edit variants of a definition (used as mismatching definitions)
+pub fn variants(t: &Ty) -> Vec<(String, Ty)> {
+    let mut out = Vec::new();
+    fn walk(t: &Ty, path: &mut Vec<usize>, out: &mut Vec<(Vec<usize>, &'static str, Ty)>) {
+        match t {
+            Ty::Scalar(sc) => {
+                for alt in [Sc::UInt, Sc::Int64, Sc::Float, Sc::UChar] {
+                    if &alt != sc {
+                        out.push((path.clone(), "scalar-type", Ty::Scalar(alt)));
+                    }
+                }
+                out.push((path.clone(), "scalar->string", Ty::Str(8)));
+                out.push((path.clone(), "scalar->array", Ty::Array(Box::new(t.clone()), 2)));
+            }
+            Ty::Str(n) => {
+                out.push((path.clone(), "string->uint", Ty::Scalar(Sc::UInt)));
+                out.push((path.clone(), "string-shorter", Ty::Str(n / 2)));
+            }
+            Ty::Array(inner, n) => {
+                out.push((path.clone(), "array-shorter", Ty::Array(inner.clone(), n.saturating_sub(1))));
+                out.push((path.clone(), "array-longer", Ty::Array(inner.clone(), n + 1)));
+                out.push((path.clone(), "array->element", (**inner).clone()));
+                path.push(0);
+                walk(inner, path, out);
+                path.pop();
+            }
+            Ty::Enum(items) => {
+                let mut it = items.clone();
+                it.push(("EXTRA".into(), None));
+                out.push((path.clone(), "enum-extra-item", Ty::Enum(it)));
+                out.push((path.clone(), "enum->uint", Ty::Scalar(Sc::UInt)));
+            }
+            Ty::Struct(ms) => {
+                if ms.len() > 1 {
+                    out.push((path.clone(), "struct-member-removed", Ty::Struct(ms[1..].to_vec())));
+                    out.push((path.clone(), "struct-last-member-removed", Ty::Struct(ms[..ms.len() - 1].to_vec())));
+                }
+                let mut more = ms.clone();
+                more.push(Ty::Scalar(Sc::UInt));
+                out.push((path.clone(), "struct-member-added", Ty::Struct(more)));
+                let mut front = vec![Ty::Scalar(Sc::Float)];
+                front.extend(ms.iter().cloned());
+                out.push((path.clone(), "struct-member-added-front", Ty::Struct(front)));
+                for (i, m) in ms.iter().enumerate() {
+                    path.push(i);
+                    walk(m, path, out);
+                    path.pop();
+                }
+            }
+            Ty::Seq(inner) => {
+                out.push((path.clone(), "sequence->single", (**inner).clone()));
+                path.push(0);
+                walk(inner, path, out);
+                path.pop();
+            }
+            Ty::TaggedStruct(items) | Ty::TaggedUnion(items) => {
+                let is_ts = matches!(t, Ty::TaggedStruct(_));
+                for (i, it) in items.iter().enumerate() {
+                    let mut flipped = items.clone();
+                    flipped[i].block = !flipped[i].block;
+                    out.push((path.clone(), "tagged-block-flipped", if is_ts { Ty::TaggedStruct(flipped) } else { Ty::TaggedUnion(flipped) }));
+                    let mut nomember = items.clone();
+                    nomember[i].item = if it.item.is_some() { None } else { Some(Ty::Scalar(Sc::UInt)) };
+                    out.push((path.clone(), "tagged-member-toggled", if is_ts { Ty::TaggedStruct(nomember) } else { Ty::TaggedUnion(nomember) }));
+                    if is_ts {
+                        let mut rep = items.clone();
+                        rep[i].repeat = !rep[i].repeat;
+                        out.push((path.clone(), "tagged-repeat-flipped", Ty::TaggedStruct(rep)));
+                    }
+                    if let Some(m) = &it.item {
+                        path.push(i);
+                        walk(m, path, out);
+                        path.pop();
+                    }
+                }
+                out.push((path.clone(), "taggedstruct<->taggedunion", if is_ts { Ty::TaggedUnion(items.iter().map(|i| Tagged { repeat: false, ..i.clone() }).collect()) } else { Ty::TaggedStruct(items.clone()) }));
+            }
+        }
+    }
+    fn replace(t: &Ty, path: &[usize], new: &Ty) -> Ty {
+        if path.is_empty() {
+            return new.clone();
+        }
+        match t {
+            Ty::Array(inner, n) => Ty::Array(Box::new(replace(inner, &path[1..], new)), *n),
+            Ty::Seq(inner) => Ty::Seq(Box::new(replace(inner, &path[1..], new))),
+            Ty::Struct(ms) => Ty::Struct(ms.iter().enumerate().map(|(i, m)| if i == path[0] { replace(m, &path[1..], new) } else { m.clone() }).collect()),
+            Ty::TaggedStruct(items) | Ty::TaggedUnion(items) => {
+                let its: Vec<Tagged> = items
+                    .iter()
+                    .enumerate()
+                    .map(|(i, it)| if i == path[0] { Tagged { item: it.item.as_ref().map(|m| replace(m, &path[1..], new)), ..it.clone() } } else { it.clone() })
+                    .collect();
+                if matches!(t, Ty::TaggedStruct(_)) {
+                    Ty::TaggedStruct(its)
+                } else {
+                    Ty::TaggedUnion(its)
+                }
+            }
+            other => other.clone(),
+        }
+    }
+    let mut raw = Vec::new();
+    walk(t, &mut vec![], &mut raw);
+    for (path, name, new) in raw {
+        out.push((format!("{name}@{path:?}"), replace(t, &path, &new)));
+    }
+    out
+}
